@@ -28,6 +28,9 @@ def judge(chk, lines, outs):
         if o.startswith("err") or "other:" in o or o == "bad":
             bad.append((i, "%s -> %s" % (l, o)))
             continue
+        if "?" in o and f[0] in ("qadapter", "subscribers"):
+            bad.append((i, "%s -> %s: the factory was not passed the underlying object of the super proxy" % (l, o)))
+            continue
         if f[0] == "prov" and f[1][0] == "s":
             chk.count("super_queries")
             if l in prev:
@@ -109,7 +112,7 @@ def check(tier):
 def still_fails(script, mode):
     try:
         out = core.run_impl("world", script, mode)
-        return any("SUPER-" in o for o in out)
+        return any("SUPER-" in o or "?" in o for o in out)
     except Exception:
         return False
 
